@@ -746,10 +746,24 @@ def bdump(doc, err=None):
     return {"id": doc.id, "notes": doc.notes, "comps": sorted(comps), "nets": nets, "err": err}
 
 
+def reset_shared():
+    """put the class-level mutable attributes of NetworkBuilder that the translator found back to their initial
+    (empty) value, so that every replay -- like the model -- starts from the initial shared state and a replay file
+    reproduces on its own.  Nothing to do on a tree without such attributes."""
+    from neuroml.hdf5.NetworkBuilder import NetworkBuilder
+    pre = "neuroml/hdf5/NetworkBuilder.py::NetworkBuilder."
+    for v in _GLUE.get("side", {}).get("vars", []):
+        if v["name"].startswith(pre) and v["kind"] == "classAttr" and v["mut"] in ("mut", "unk"):
+            o = NetworkBuilder.__dict__.get(v["name"][len(pre):])
+            if isinstance(o, (dict, list, set)):
+                o.clear()
+
+
 def replay_schedule(calls_a, calls_b, sched):
     """two fresh NetworkBuilder instances stepped through the merge `sched` (list of booleans: True = A's next call)"""
     from neuroml.hdf5.NetworkBuilder import NetworkBuilder
     sink = io.StringIO()
+    reset_shared()
     with contextlib.redirect_stdout(sink), contextlib.redirect_stderr(sink):
         ba, bb = NetworkBuilder(), NetworkBuilder()
         qa, qb = copy.deepcopy(calls_a), copy.deepcopy(calls_b)
